@@ -5,7 +5,7 @@ from vlib.runner import Group, run_property
 SUM = ["deps.dev/util/semver.compare", "(deps.dev/util/semver.Set).matchVersion", "deps.dev/util/semver.canon$1"]
 NCONS = {0: 24, 4: 24, 1: 24, 2: 4}
 NVERS = {0: 4, 4: 4, 1: 4, 2: 4}
-QUICK = {0: [5, 6, 12], 4: [3, 7, 14], 1: [5, 9, 12], 2: [0, 1]}
+QUICK = {0: [5, 6, 12], 4: [3, 7, 10], 1: [5, 9, 12], 2: [0, 1]}
 
 
 def run(tier):
